@@ -237,7 +237,7 @@ where
                 (span - delta_down, delta_down)
             };
             if delta_up <= delta_down {
-                Ok(original + TimeDelta::nanoseconds(delta_up))
+                Ok(add_to_stamp(original, delta_up))
             } else {
                 Ok(original - TimeDelta::nanoseconds(delta_down))
             }
@@ -289,11 +289,29 @@ where
         let delta_down = stamp % span;
         match delta_down.cmp(&0) {
             Ordering::Equal => Ok(original),
-            Ordering::Greater => Ok(original + TimeDelta::nanoseconds(span - delta_down)),
-            Ordering::Less => Ok(original + TimeDelta::nanoseconds(delta_down.abs())),
+            Ordering::Greater => Ok(add_to_stamp(original, span - delta_down)),
+            Ordering::Less => Ok(add_to_stamp(original, delta_down.abs())),
         }
     } else {
         Err(RoundingError::DurationExceedsLimit)
+    }
+}
+
+/// Moves `original` forward by `delta` nanoseconds of its timestamp.
+///
+/// In the timestamp a leap second coincides with the second that follows it, while adding a
+/// `TimeDelta` to a value inside a leap second first has to leave that second: when the move
+/// goes past its end, one more second is needed to arrive at the intended timestamp.
+fn add_to_stamp<T>(original: T, delta: i64) -> T
+where
+    T: Timelike + Add<TimeDelta, Output = T>,
+{
+    let nano = i64::from(original.nanosecond());
+    let moved = original + TimeDelta::nanoseconds(delta);
+    if nano >= 1_000_000_000 && delta >= 2_000_000_000 - nano {
+        moved + TimeDelta::nanoseconds(1_000_000_000)
+    } else {
+        moved
     }
 }
 
